@@ -29,6 +29,12 @@ func (p *ContinuousPool) Start(ctx context.Context) {
 	workerCtx, workerCtxCancel := context.WithCancel(ctx)
 	p.workerCtxCancel = workerCtxCancel
 
+	// A context that is already done (e.g. cancelled while setup was running) must not start any
+	// iteration: the stop flag is otherwise only set by the goroutine below, which the workers race with.
+	if workerCtx.Err() != nil {
+		p.stopWorkers.Store(true)
+	}
+
 	workersStarted := sync.WaitGroup{}
 
 	workersStarted.Add(p.numWorkers)
